@@ -47,11 +47,13 @@ def strategy(tier):
         yhat = [[draw(S.fl(0.05, 60.0, 4)) for _ in range(p)] for _ in range(n)]
         sform = draw(st.sampled_from(["default", "scalar", "array", "special", "explicit-none"]))
         spread = None
+        # spreads of every size: an almost-Poisson negative binomial (k of order 1e6), a sharply peaked gamma, a wide normal
+        sscale = draw(st.sampled_from([1.0, 1.0, 1.0, 1.0, 1e3, 1e6]))
         if kind in ("Normal", "Gamma", "NegBinom"):
             if sform == "scalar":
-                spread = draw(S.fl(0.2, 8.0, 3))
+                spread = S.sig(draw(S.fl(0.2, 8.0, 3)) * sscale, 4)
             elif sform == "array":
-                spread = [[draw(S.fl(0.2, 8.0, 3)) for _ in range(p)] for _ in range(n)]
+                spread = [[S.sig(draw(S.fl(0.2, 8.0, 3)) * sscale, 4) for _ in range(p)] for _ in range(n)]
             elif sform == "special":
                 spread = {"Normal": 1.0, "Gamma": 2.0, "NegBinom": 1.0}[kind]
         wform = draw(st.sampled_from(["none", "none", "array"])) if kind in ("Square", "Normal") else "none"
@@ -111,7 +113,17 @@ def oracle(case, rec):
     except Exception:
         raise PropertyViolation(key + "/loss-type", "loss returned %r" % (got,), case)
     r = float(ref)
-    if not np.isfinite(g) or abs(g - r) > 1e-10 * (abs(r) + sum(abs(float(refdist.nll(kind, yf[i], mf[i], sf[i], wf[i]))) for i in range(len(yf)))) + 1e-12:
+    # rounding of the library's own float64 formula: log-gamma terms of size k*log(k) cancel to O(1) for large spreads
+    cancel = 0.0
+    if kind in ("NegBinom", "Gamma"):
+        import math
+        for i in range(len(yf)):
+            k_ = float(sf[i])
+            cancel += 8e-16 * (abs(math.lgamma(k_ + yf[i])) + abs(math.lgamma(k_)) + k_ * abs(math.log(k_)) + k_ * abs(math.log(mf[i]))
+                               + (k_ + yf[i]) * abs(math.log(k_ + mf[i])) + k_ * yf[i] / mf[i])
+    if spread is not None and (np.max(sf) >= 1e3):
+        rec.label("spread:large")
+    if not np.isfinite(g) or abs(g - r) > 1e-10 * (abs(r) + sum(abs(float(refdist.nll(kind, yf[i], mf[i], sf[i], wf[i]))) for i in range(len(yf)))) + 1e-12 + cancel:
         raise PropertyViolation(key + "/loss", "loss = %.17g, reference -sum(log density) = %.17g (layout %s)" % (g, r, layout), case)
     # ---- derivatives (unit weights)
     if w is None:
